@@ -31,9 +31,16 @@ def main():
         try:
             import ctypes
             import signal
-            ctypes.CDLL('libc.so.6', use_errno=True).prctl(1, signal.SIGKILL)       # PR_SET_PDEATHSIG
-            if os.getppid() == 1:
-                return 2
+            libc = ctypes.CDLL('libc.so.6', use_errno=True)
+
+            def die_with_parent():
+                libc.prctl(1, signal.SIGKILL)       # PR_SET_PDEATHSIG (cleared by fork: every forked child sets it again for itself)
+                if os.getppid() == 1:
+                    os._exit(2)
+            die_with_parent()
+            # ... and so do the worker processes that the code under test forks from a shard (multiprocessing pools of batch_run /
+            # grid_search): a shard that is killed must not leave idle pool workers behind
+            os.register_at_fork(after_in_child=die_with_parent)
         except Exception:  # noqa - not Linux / no libc: the parent's own watchdog remains
             pass
         s, n = a._shard.split('/')
